@@ -128,6 +128,30 @@ def run(ctx):
                                       dict(wit, joint=calls, inapplicable_position=pos))
                     if allow and raised:
                         ctx.violation("joint:raises-although-inapplicable-actions-were-allowed", dict(wit, joint=calls, inapplicable_position=pos))
+                # the same through the trajectory exporter, whose allowance is given per call (the exporter object
+                # itself is built with its default setting, and once with the opposite constructor setting)
+                if step % 2 == 0:
+                    bad_line = magen.joint_line(w, [(c[0], c[1:]) for c in calls])
+                    try:
+                        prob_bad = lib.parse_problem_text(sx.plain(w.problem_ast(st)), dom)
+                    except BaseException:
+                        prob_bad = None
+                    for ctor_allow in ((False, True) if prob_bad is not None else ()):
+                        for allow in (False, True):
+                            try:
+                                MultiAgentTrajectoryExporter(dom, allow_invalid_actions=ctor_allow).parse_plan(
+                                    prob_bad, action_sequence=[bad_line], allow_inapplicable_actions=allow)
+                                raised = False
+                            except BaseException:
+                                raised = True
+                            ctx.count("compared:refusal")
+                            ctx.count("compared:refusal-through-exporter")
+                            info = dict(wit, joint=calls, inapplicable_position=pos, exporter_built_with_allow_invalid_actions=ctor_allow,
+                                        parse_plan_allow_inapplicable_actions=allow)
+                            if not allow and not raised and not ctor_allow:
+                                ctx.violation("exporter:inapplicable-member-not-refused", info)
+                            if allow and raised:
+                                ctx.violation("exporter:raises-although-inapplicable-actions-were-allowed-for-the-call", info)
             joint_lines.append(magen.joint_line(w, members))
             joint_expected.append(s_star)
             st = s_star
